@@ -715,6 +715,42 @@ Proof.
     + apply store_proof_spec. exact HI.
 Qed.
 
+(* "stores the proof": whenever flag_misbehaving_tower stores a proof (none was stored for the tower), the proof row
+   (tower, locator, recovered id) is there AND the receipt stored for (tower, locator) is the offending one - also when a
+   receipt of that appointment was stored before (a retry interrupted between its two writes): it is replaced *)
+Theorem flag_store_backs_proof d t l sb u g rc d' :
+  DbInv d -> exists_misbehaving_proof d t = false -> flag_store d t l sb u g rc = DbOk d' ->
+  find_pk CS d' T_misbehaving_proofs [t] = Some (proof_row t l rc) /\
+  find_pk CS d' T_appointment_receipts [l; t] = Some (receipt_row t l sb u g).
+Proof.
+  intros HI Hnp H. pose proof (flag_store_spec _ _ _ _ _ _ _ _ HI H) as [HI' _].
+  assert (Hpk : pk_ok CS d') by apply HI'.
+  unfold flag_store in H. rewrite Hnp in H.
+  destruct (dbm_load_appointment_receipt d t l) as [r0|] eqn:Er.
+  - unfold dbm_store_misbehaving_proof_over_receipt in H.
+    destruct (db_update CS d T_appointment_receipts [l; t] _ false) as [d1|e] eqn:E1; [|discriminate].
+    pose proof (tbl_update CS d _ _ _ _ d1 E1) as [O1 [L1 T1]].
+    pose proof (tbl_insert CS d1 _ _ d' H) as [T2 [O2 L2]].
+    split.
+    + apply find_pk_unique; [exact Hpk| |reflexivity]. rewrite T2. apply in_or_app. right. left. reflexivity.
+    + unfold dbm_load_appointment_receipt in Er. apply find_pk_Some in Er. destruct Er as [Hin Hk].
+      assert (Hlen : length r0 = 5%nat) by (apply (proj1 (proj2 HI) T_appointment_receipts r0 Hin)).
+      destruct r0 as [|a0 [|a1 [|a2 [|a3 [|a4 [|]]]]]]; try discriminate Hlen.
+      cbn in Hk. inversion Hk. subst a0 a1.
+      apply find_pk_unique; [exact Hpk| |reflexivity].
+      rewrite O2 by discriminate. rewrite T1 by (rewrite (proj1 (proj2 (proj2 HI))); unfold T_appointment_receipts; lia).
+      apply in_map_iff. exists [l; t; a2; a3; a4]. split; [|exact Hin].
+      change (proj [l; t; a2; a3; a4] (ts_pk (tsch CS T_appointment_receipts))) with [l; t].
+      rewrite key_eqb_refl. reflexivity.
+  - unfold dbm_store_misbehaving_proof in H.
+    destruct (db_insert CS d T_appointment_receipts (receipt_row t l sb u g)) as [d1|e] eqn:E1; [|discriminate].
+    pose proof (tbl_insert CS d _ _ d1 E1) as [T1 [O1 L1]].
+    pose proof (tbl_insert CS d1 _ _ d' H) as [T2 [O2 L2]].
+    split.
+    + apply find_pk_unique; [exact Hpk| |reflexivity]. rewrite T2. apply in_or_app. right. left. reflexivity.
+    + apply find_pk_unique; [exact Hpk| |reflexivity]. rewrite O2 by discriminate. rewrite T1. apply in_or_app. right. left. reflexivity.
+Qed.
+
 (* store_tower_record *)
 Definition upd_tower (t addr slots : N) (r : row) : row :=
   if key_eqb (proj r (ts_pk (tsch CS T_towers))) [t]
